@@ -12,6 +12,9 @@ left behind.
 and if the next one is a write, any prefix (`p` bytes) of it.  "Old content" includes "the
 target did not exist" (`get fs target = none`).  All theorems are for every directory state
 `fs` (any bystander files, stale temporaries, …), every name, every content, every cut.
+
+Second half (white-box audit): the same when the process dies by an exception raised at the cut (`failAt`),
+when the dump function of `save` raises, and after any history of earlier calls on the same object.
 -/
 namespace TwistedProps.C52
 open Twisted.Fs Twisted.Fs.SetContent
@@ -225,5 +228,173 @@ example :
         [97, 45, 120, 46, 116] = some [7] ∧
     get (run (saveTrace [97] none (some [120]) [116] [9, 9]) [([97, 45, 120, 46, 116], [7])])
         [97, 45, 120, 46, 116] = some [9, 9] := by decide
+
+/-! ### a primitive that raises instead of the process being killed (`failAt`) -/
+
+/-- **C52 (setContent), dying by exception.**  When the primitive at the cut raises (ENOSPC after `p`
+    bytes, EMFILE, EIO, KeyboardInterrupt…) and the exception unwinds through `setContent`, the
+    target still holds exactly its old binding or exactly the new content. -/
+theorem setContent_exception_target_old_or_new (fs : Fs) (base rnd ext : Name) (content : Bytes)
+    (tr : List Prim) (hr : rnd ≠ [])
+    (h : setContentTrace fs base rnd ext content = .ok tr) (k p : Nat) :
+    get (failAt tr k p fs) base = get fs base ∨ get (failAt tr k p fs) base = some content :=
+  setContent_target_old_or_new fs base rnd ext content tr hr h k p
+
+theorem setContent_exception_only_temporary_left (fs : Fs) (base rnd ext : Name) (content : Bytes)
+    (tr : List Prim) (h : setContentTrace fs base rnd ext content = .ok tr) (k p : Nat) (m : Name)
+    (hm : m ≠ base) (hs : m ≠ sibName rnd base ext) :
+    get (failAt tr k p fs) m = get fs m :=
+  setContent_only_temporary_left fs base rnd ext content tr h k p m hm hs
+
+/-- **C52 (save), dying by exception.** -/
+theorem save_exception_target_old_or_new (fs : Fs) (name : Name) (filename tag : Option Name) (ext : Name)
+    (data : Bytes) (k p : Nat) :
+    let final := (getFilename name filename tag ext).1
+    get (failAt (saveTrace name filename tag ext data) k p fs) final = get fs final ∨
+    get (failAt (saveTrace name filename tag ext data) k p fs) final = some data :=
+  save_target_old_or_new fs name filename tag ext data k p
+
+theorem save_exception_only_temporary_left (fs : Fs) (name : Name) (filename tag : Option Name) (ext : Name)
+    (data : Bytes) (k p : Nat) (m : Name)
+    (hm : m ≠ (getFilename name filename tag ext).1) (hs : m ≠ (getFilename name filename tag ext).2) :
+    get (failAt (saveTrace name filename tag ext data) k p fs) m = get fs m :=
+  save_only_temporary_left fs name filename tag ext data k p m hm hs
+
+/-! ### the dump function raises (object that cannot be serialised) -/
+
+/-- every name except the `-2` temporary is untouched, at every cut and in the complete run -/
+theorem save_dump_fails_only_temporary_touched (fs : Fs) (name : Name) (filename tag : Option Name) (ext : Name)
+    (k p : Nat) (m : Name) (hs : m ≠ (getFilename name filename tag ext).2) :
+    get (crashAt (saveFailTrace name filename tag ext) k p fs) m = get fs m := by
+  rcases k with _ | k
+  · simp [saveFailTrace, crashAt]
+  · simp [saveFailTrace, crashAt, get_apply_create, hs]
+
+/-- **C52 (save), failing dump.**  The final file keeps its old binding. -/
+theorem save_dump_fails_target_old (fs : Fs) (name : Name) (filename tag : Option Name) (ext : Name) (k p : Nat) :
+    get (crashAt (saveFailTrace name filename tag ext) k p fs) (getFilename name filename tag ext).1 =
+      get fs (getFilename name filename tag ext).1 :=
+  save_dump_fails_only_temporary_touched fs name filename tag ext k p _
+    (fun h => getFilename_tmp_ne_final name filename tag ext h.symm)
+
+/-! ### histories: earlier complete calls on the same object, then a call that is cut -/
+
+/-- **C52 (setContent), any history.**  Whatever calls were made before on the same path (`ops`), a
+    crash / failing primitive during the next call leaves the target with what it held after the
+    history, or the new content. -/
+theorem setContent_history_target_old_or_new (fs : Fs) (base : Name) (ops : List SCOp) (last : SCOp)
+    (tr : List Prim) (hr : last.rnd ≠ [])
+    (h : setContentTrace (setContentHist fs base ops) base last.rnd last.ext last.content = .ok tr) (k p : Nat) :
+    get (crashAt tr k p (setContentHist fs base ops)) base = get (setContentHist fs base ops) base ∨
+    get (crashAt tr k p (setContentHist fs base ops)) base = some last.content :=
+  setContent_target_old_or_new _ base last.rnd last.ext last.content tr hr h k p
+
+/-- a completed call: target = its content unless it was refused; every other name but its sibling untouched -/
+theorem setContentDone_target (fs : Fs) (base : Name) (op : SCOp) (hr : op.rnd ≠ [])
+    (hfree : exists_ fs (sibName op.rnd base op.ext) = false) :
+    get (setContentDone base fs op) base = some op.content := by
+  unfold setContentDone
+  cases h : setContentTrace fs base op.rnd op.ext op.content with
+  | ok tr => exact (setContent_complete fs base op.rnd op.ext op.content tr hr h).1
+  | error e =>
+    cases e
+    have := (setContent_refused_iff fs base op.rnd op.ext op.content).mp h
+    rw [hfree] at this; cases this
+
+theorem setContentDone_others (fs : Fs) (base : Name) (op : SCOp) (m : Name)
+    (hm : m ≠ base) (hs : m ≠ sibName op.rnd base op.ext) :
+    get (setContentDone base fs op) m = get fs m := by
+  unfold setContentDone
+  cases h : setContentTrace fs base op.rnd op.ext op.content with
+  | ok tr =>
+    have := setContent_only_temporary_left fs base op.rnd op.ext op.content tr h tr.length 0 m hm hs
+    rwa [crashAt_ge _ _ _ _ (Nat.le_refl _)] at this
+  | error e => rfl
+
+/-- a whole history of `setContent` calls touches nothing but the target and the siblings it used -/
+theorem setContentHist_others (fs : Fs) (base : Name) (ops : List SCOp) (m : Name)
+    (hm : m ≠ base) (hs : ∀ op ∈ ops, m ≠ sibName op.rnd base op.ext) :
+    get (setContentHist fs base ops) m = get fs m := by
+  induction ops generalizing fs with
+  | nil => rfl
+  | cons op rest ih =>
+    simp only [setContentHist, List.foldl_cons]
+    have h1 := ih (setContentDone base fs op) (fun o ho => hs o (List.mem_cons_of_mem _ ho))
+    simp only [setContentHist] at h1
+    rw [h1, setContentDone_others fs base op m hm (hs op List.mem_cons_self)]
+
+/-- one complete save (dump succeeding or raising) touches only its own final and temporary name -/
+theorem saveOp_others (fs : Fs) (name : Name) (op : SaveOp) (m : Name)
+    (hm : m ≠ op.final name) (hs : m ≠ op.tmp name) :
+    get (run (saveOpTrace name op) fs) m = get fs m := by
+  unfold saveOpTrace
+  cases hd : op.data with
+  | some d =>
+    have := save_only_temporary_left fs name op.filename op.tag op.ext d
+      (saveTrace name op.filename op.tag op.ext d).length 0 m hm hs
+    rwa [crashAt_ge _ _ _ _ (Nat.le_refl _)] at this
+  | none =>
+    have := save_dump_fails_only_temporary_touched fs name op.filename op.tag op.ext
+      (saveFailTrace name op.filename op.tag op.ext).length 0 m hs
+    rwa [crashAt_ge _ _ _ _ (Nat.le_refl _)] at this
+
+/-- **C52 (save), reused `Persistent`.**  A history of saves (any tags / filenames / styles, dumps
+    that raise included) leaves every file that is not the final or temporary name of one of THOSE
+    saves exactly as it was — an earlier save's names play no part in a later one. -/
+theorem saveHist_others (fs : Fs) (name : Name) (ops : List SaveOp) (m : Name)
+    (h : ∀ op ∈ ops, m ≠ op.final name ∧ m ≠ op.tmp name) :
+    get (saveHist fs name ops) m = get fs m := by
+  induction ops generalizing fs with
+  | nil => rfl
+  | cons op rest ih =>
+    simp only [saveHist, List.foldl_cons]
+    have h1 := ih (run (saveOpTrace name op) fs) (fun o ho => h o (List.mem_cons_of_mem _ ho))
+    simp only [saveHist] at h1
+    rw [h1, saveOp_others fs name op m (h op List.mem_cons_self).1 (h op List.mem_cons_self).2]
+
+/-- **C52 (save), any history.**  After any earlier saves through the same object, a crash / failing
+    primitive during the next save leaves ITS final file with what it held after the history or with
+    the complete new data; a failing dump leaves it as it was. -/
+theorem save_history_target_old_or_new (fs : Fs) (name : Name) (ops : List SaveOp) (last : SaveOp) (k p : Nat) :
+    let mid := saveHist fs name ops
+    get (crashAt (saveOpTrace name last) k p mid) (last.final name) = get mid (last.final name) ∨
+    (∃ d, last.data = some d ∧ get (crashAt (saveOpTrace name last) k p mid) (last.final name) = some d) := by
+  intro mid
+  unfold saveOpTrace SaveOp.final
+  cases hd : last.data with
+  | some d =>
+    rcases save_target_old_or_new mid name last.filename last.tag last.ext d k p with h | h
+    · left; exact h
+    · right; exact ⟨d, rfl, h⟩
+  | none => left; exact save_dump_fails_target_old mid name last.filename last.tag last.ext k p
+
+theorem save_history_only_temporary_left (fs : Fs) (name : Name) (ops : List SaveOp) (last : SaveOp) (k p : Nat)
+    (m : Name) (hm : m ≠ last.final name) (hs : m ≠ last.tmp name) :
+    get (crashAt (saveOpTrace name last) k p (saveHist fs name ops)) m = get (saveHist fs name ops) m := by
+  unfold saveOpTrace
+  cases hd : last.data with
+  | some d => exact save_only_temporary_left _ name last.filename last.tag last.ext d k p m hm hs
+  | none => exact save_dump_fails_only_temporary_touched _ name last.filename last.tag last.ext k p m hs
+
+/-- non-vacuity: save(), then save(tag="x") whose dump raises, then save() cut inside the write:
+    `app.tap` keeps the first save's data, `app-x.tap` was never created -/
+example :
+    let ops : List SaveOp := [⟨none, none, [116], some [1, 2]⟩, ⟨none, some [120], [116], none⟩]
+    let last : SaveOp := ⟨none, none, [116], some [3, 4]⟩
+    let mid := saveHist [] [97] ops
+    get mid [97, 46, 116] = some [1, 2] ∧ get mid [97, 45, 120, 46, 116] = none ∧
+    get mid [97, 45, 120, 45, 50, 46, 116] = some [] ∧
+    get (crashAt (saveOpTrace [97] last) 1 1 mid) [97, 46, 116] = some [1, 2] ∧
+    get (crashAt (saveOpTrace [97] last) 1 1 mid) [97, 45, 50, 46, 116] = some [3] ∧
+    get (crashAt (saveOpTrace [97] last) 3 0 mid) [97, 46, 116] = some [3, 4] := by decide
+
+/-- non-vacuity: two `setContent` calls on the same path, the second refused, a third cut -/
+example :
+    let fs : Fs := [([66, 66, 116], [9])]
+    let mid := setContentHist fs [116] [⟨[65, 65], [], [1]⟩, ⟨[66, 66], [], [2]⟩]
+    get mid [116] = some [1] ∧ get mid [66, 66, 116] = some [9] ∧
+    ∃ tr, setContentTrace mid [116] [67] [46] [7, 8] = .ok tr ∧
+      get (failAt tr 1 1 mid) [116] = some [1] ∧ get (failAt tr 1 1 mid) [67, 116, 46] = some [7] :=
+  ⟨by decide, by decide, _, rfl, by decide, by decide⟩
 
 end TwistedProps.C52
